@@ -17,6 +17,19 @@ func Harness_C05_Template() {
 		verifSetFile(base, verifHostFile(f))
 		args = append(args, base)
 	}
+	// the other thing a run may see besides its input: outputs of an earlier
+	// run (longer than the new ones) already at the destinations
+	if verifEnv("VERIF_STALE") == "1" && verifChoice("stale", 2) == 1 {
+		stale := "// stale output of an earlier run\n"
+		for k := 0; k < 9; k++ {
+			stale += stale
+		}
+		for _, a := range args[1:] {
+			if strings.HasSuffix(a, ".fo") {
+				verifSetFile("gen_"+a[:len(a)-3]+".go", stale)
+			}
+		}
+	}
 	verifSetArgs(args)
 	code := verifRunMain(main)
 	res := "exit=" + itoaV(code) + "\n"
